@@ -480,6 +480,11 @@ class Unit:
                 text, n30 = inline_calls(text, info)
                 if n30:
                     self.desugar_log.append(('D30', '%s: %d call(s) of the new contract-less helper `%s` replaced by its body (arguments bound first, `self` bound to the receiver)' % (e.qualname, n30, info['name'])))
+        if re.search(r'\bcontinue\b', text) and re.search(r'\bfor\b', text) and not e.trusted:
+            from .inline import desugar_for_continue
+            text, n31 = desugar_for_continue(text)
+            if n31:
+                self.desugar_log.append(('D31', '%s: %d `if C { ..; continue; } REST` in a `for` body -> `if C { .. } else { REST }` (Verus for-loops have no `continue`)' % (e.qualname, n31)))
         if e.d1:
             text, n1 = split_or_guards(text)
             if n1:
